@@ -29,6 +29,9 @@ ASSUMPTIONS = [
     "s * n is an uninterpreted py_rep(s, n) with rep(s,0)='', rep(s,1)=s, len(rep(s,n))=len(s)*n for n>=0",
     "str.replace(a,b) is SMT-LIB str.replace_all (equal for non-empty a)",
     "termination of recursive functions is not verified (partial correctness)",
+    "the string axioms (lower/upper idempotent, ASCII delimiters never created or changed, ASCII-only lower∘upper∘lower, strip / replace / repeat facts) are assumed for all strings and re-checked against this CPython on every run: character-wise over every code point, the others on a fixed family of strings (sym.selftest_axioms)",
+    "decorators are not executed: click.*, main.*, v_args, classmethod, staticmethod, functools.wraps and utils.deprecated are assumed not to change what a call does; a function under any other decorator is out of reach",
+    "Lark (lexing, LALR parsing, line/column of tokens, which terminals advance the line counter), jsonschema Draft4Validator and jsonref are assumed; their use is exercised by the bounded seams and the finite tables only",
 ]
 
 
